@@ -1,0 +1,32 @@
+//go:build verif
+
+// Package vpool reports acquisitions and releases of pooled objects to the verification harness.
+// It only exists in builds with the "verif" tag.
+package vpool
+
+import (
+	"sync/atomic"
+	"unsafe"
+)
+
+// Tracer receives one event per pool operation: kind names the pool, obj is the object (a tracer that keeps
+// it reachable prevents the reuse of its address, so that obj identifies the object for a whole run),
+// put is false for an acquisition and true for a release, mask has one bit per attribute of an
+// acquired object which is not in its fresh state (0 for a fresh object).
+type Tracer func(kind string, obj unsafe.Pointer, put bool, mask int64)
+
+var tracer atomic.Pointer[Tracer]
+
+func Set(f Tracer) {
+	if f == nil {
+		tracer.Store(nil)
+		return
+	}
+	tracer.Store(&f)
+}
+
+func Emit(kind string, obj unsafe.Pointer, put bool, mask int64) {
+	if f := tracer.Load(); f != nil {
+		(*f)(kind, obj, put, mask)
+	}
+}
